@@ -1,4 +1,25 @@
+/-
+  C18 — printing and parsing of instants and durations (dt-strpf.c) are inverse to each other,
+  and the parser accepts every spelling the grammar describes.
+
+  A  `dtStrp (dtStrf i)` returns `i` and consumes the whole text, for normal instants with
+     millisecond resolution, second resolution and all-day instants, years up to 9999,
+     with `len = 0` (NUL-terminated) and with the exact length;
+  B  the same for the iCalendar form `dtStrfIcal` (a millisecond instant comes back with
+     second resolution, as the form has no milliseconds);
+  C  all sixteen second-resolution spellings parse to the instant;
+  D  `ilog10Ceil` is the number of decimal digits on the whole `uint32_t` range, `tostr` prints
+     the canonical decimal numeral;
+  E  the number loop of the duration parser;
+  F  `idiffStrp (idiffStrf n) = n` for every whole-second duration whose day count fits
+     32 bits (far beyond 2^32 ms), positive and negative;
+  G  every spelling `[+-]P[nW][nD][T[nH][nM][nS]]` parses to its value.
+
+  Statements only; helper lemmas live in Echse/Lemmas/Strpf*.lean.  The year hypothesis is
+  `i.y ≤ 9999` only (the printer pads to four digits, so `1000 ≤ i.y` is not needed).
+-/
 import Echse.Lemmas.Strpf2
+import Echse.Lemmas.Strpf4
 namespace C18
 open Echse.Instant Echse.Strpf Echse.Spec.Cal
 
@@ -98,5 +119,156 @@ theorem dt_spellings (dsep tsep : Bool) (sep : Char) (z : Bool) (i : Inst)
   obtain rfl : ms = allSec := h.2.2.2.2
   exact ⟨spell_parse dsep tsep sep z y m d H M S 0 (Or.inl rfl) hsep hy h,
          spell_parse dsep tsep sep z y m d H M S _ (Or.inr rfl) hsep hy h⟩
+
+
+/-- the spellings are what the name says (definition in Echse/Lemmas/Strpf.lean) -/
+theorem spell_def (dsep tsep : Bool) (sep : Char) (z : Bool) (i : Inst) :
+    spell dsep tsep sep z i =
+      tpstr i.y 4 ++ (if dsep then ['-'] else []) ++ tpstr i.m 2 ++ (if dsep then ['-'] else []) ++ tpstr i.d 2 ++
+      [sep] ++ tpstr i.H 2 ++ (if tsep then [':'] else []) ++ tpstr i.M 2 ++ (if tsep then [':'] else []) ++
+      tpstr i.S 2 ++ (if z then ['Z'] else []) := rfl
+
+-- concrete instances: a leap day with milliseconds, second resolution, all-day, other spellings
+example : Normal ⟨2020, 2, 29, 10, 30, 15, 250⟩ := by decide
+example : dtStrf ⟨2020, 2, 29, 10, 30, 15, 250⟩ =
+    ['2','0','2','0','-','0','2','-','2','9','T','1','0',':','3','0',':','1','5','.','2','5','0'] := by decide
+/-- concrete instance (name referenced by evidence/C18.json) -/
+theorem dt_roundtrip_leapday :
+    dtStrp (dtStrf ⟨2020, 2, 29, 10, 30, 15, 250⟩) 0 = some (⟨2020, 2, 29, 10, 30, 15, 250⟩, 23) := by decide
+example : dtStrp (dtStrf ⟨2020, 2, 29, 23, 59, 59, 999⟩) 23 = some (⟨2020, 2, 29, 23, 59, 59, 999⟩, 23) := by decide
+example : dtStrp (dtStrfIcal ⟨2020, 2, 29, 10, 30, 15, 250⟩) 0 = some (⟨2020, 2, 29, 10, 30, 15, allSec⟩, 16) := by
+  decide
+example : NormalSec ⟨1999, 12, 31, 23, 59, 59, allSec⟩ := by decide
+example : dtStrp (spell false true ' ' true ⟨1999, 12, 31, 23, 59, 59, allSec⟩) 0
+    = some (⟨1999, 12, 31, 23, 59, 59, allSec⟩, 18) := by decide
+example : dtStrp ['1','9','9','9','1','2','3','1',' ','2','3',':','5','9',':','5','9','Z'] 18
+    = some (⟨1999, 12, 31, 23, 59, 59, allSec⟩, 18) := by decide
+example : dtStrp (dtStrf ⟨2024, 2, 29, allDay, 0, 0, 0⟩) 10 = some (⟨2024, 2, 29, allDay, 0, 0, 0⟩, 10) := by decide
+
+/-! ### D. digit printing -/
+
+/-- `ilog10_ceil(n)` is the number of decimal digits of `n` (1 for 0), for every `uint32_t` -/
+theorem ilog10Ceil_digits (n : Nat) (h : n < 2^32) :
+    1 ≤ ilog10Ceil n ∧ n < 10^(ilog10Ceil n) ∧ (n ≠ 0 → 10^(ilog10Ceil n - 1) ≤ n) :=
+  ilog10Ceil_spec n h
+
+theorem ilog10Ceil_eq_toDigits_length (n : Nat) (h : n < 2^32) : ilog10Ceil n = (Nat.toDigits 10 n).length :=
+  ilog10Ceil_eq_length n h
+
+/-- `ui32tostr` prints the canonical decimal numeral -/
+theorem tostr_canonical (n : Nat) (h : n < 2^32) : tostr n = Nat.toDigits 10 n :=
+  tostr_eq_toDigits n h
+
+example : tostr 4294967295 = ['4','2','9','4','9','6','7','2','9','5'] := by decide
+example : tostr 1000000000 = ['1','0','0','0','0','0','0','0','0','0'] := by decide
+example : tostr 999999999 = ['9','9','9','9','9','9','9','9','9'] := by decide
+example : tostr 0 = ['0'] := by decide
+
+/-! ### E. the number loop -/
+
+/-- on `pre ++ digits ++ c :: rest` with `digits` ASCII digits (leading zeros allowed) denoting a
+value below 2^32 and `c` not a digit, the loop started behind `pre` stops behind the digits with their
+value.  (`digitsVal ds < 2^32` is the same as "no intermediate value reaches 2^32": the
+intermediate values are the values of the prefixes, which are not larger, `digitsVal_prefix_le`.) -/
+theorem numLoop_spec (pre digits : List Char) (c : Char) (rest : List Char) (fuel len : Nat)
+    (hd : ∀ x ∈ digits, isDig x) (hv : digitsVal digits < 2^32) (hc : ¬ isDig c)
+    (hf : digits.length < fuel) (hlen : pre.length + digits.length ≤ len) :
+    numLoop (pre ++ digits ++ c :: rest) len fuel pre.length 0 = (pre.length + digits.length, digitsVal digits) :=
+  numLoop_token pre digits c rest fuel len hd hv hc hf hlen
+
+theorem digitsVal_prefix_le (ds es : List Char) : digitsVal ds ≤ digitsVal (ds ++ es) := by
+  unfold digitsVal; rw [List.foldl_append]; exact foldl_digStep_ge es _
+
+/-- the value is the usual positional one, and `tostr` prints digits with that value -/
+theorem digitsVal_snoc' (ds : List Char) (c : Char) :
+    digitsVal (ds ++ [c]) = digitsVal ds * 10 + (c.toNat - 48) := digitsVal_snoc ds c
+theorem tostr_digits (v : Nat) (h : v < 2^32) : (∀ c ∈ tostr v, isDig c) ∧ digitsVal (tostr v) = v :=
+  ⟨tostr_isDig v, tostr_val v h⟩
+
+example : numLoop ['P','0','0','4','2','D'] 6 7 1 0 = (5, 42) := by decide
+example : digitsVal ['4','2','9','4','9','6','7','2','9','5'] = 4294967295 := by decide
+
+/-! ### F. duration round trip -/
+
+/-- whole-second durations of any length (the day count fits 32 bits, i.e. up to
+2^32 · 86400000 ms), positive and negative -/
+theorem idiff_roundtrip_pos (n : Nat) (h1000 : n % 1000 = 0) (hd : n / 86400000 < 2^32) :
+    (idiffStrp (idiffStrf (n : Int)) (idiffStrf (n : Int)).length).1 = (n : Int) :=
+  (idiff_roundtrip n h1000 hd).1
+
+theorem idiff_roundtrip_neg (n : Nat) (h1000 : n % 1000 = 0) (hd : n / 86400000 < 2^32) :
+    (idiffStrp (idiffStrf (-(n : Int))) (idiffStrf (-(n : Int))).length).1 = -(n : Int) :=
+  (idiff_roundtrip n h1000 hd).2
+
+-- 50 days are more than 2^32 ms
+example : (4320000000 : Nat) > 2^32 ∧ 4320000000 % 1000 = 0 ∧ 4320000000 / 86400000 < 2^32 := by decide
+example : idiffStrf 4320000000 = ['P','5','0','D'] := by decide
+example : idiffStrp (idiffStrf 4320000000) 4 = (4320000000, 5) := by decide
+example : idiffStrf (-(4320000000 + 3723000)) = ['-','P','5','0','D','T','1','H','2','M','3','S'] := by decide
+example : (idiffStrp (idiffStrf (-(4320000000 + 3723000))) 12).1 = -4323723000 := by decide
+
+/-! ### G. spellings of durations -/
+
+/-- the text `[sign]P[nW][nD][T[nH][nM][nS]]`: every part optional, the `T` present iff a time part
+is, the numbers any digit strings (leading zeros allowed) with a value below 2^32 -/
+theorem durBody_def (w d h mi s : Option (List Char)) :
+    durBody w d h mi s = part w 'W' ++ part d 'D' ++
+      (if h.isSome ∨ mi.isSome ∨ s.isSome then 'T' :: (part h 'H' ++ part mi 'M' ++ part s 'S') else []) := rfl
+
+theorem idiff_spellings (sign : List Char) (w d h mi s : Option (List Char))
+    (hw : POk w) (hd : POk d) (hh : POk h) (hm : POk mi) (hs : POk s)
+    (hsign : sign = [] ∨ sign = ['+'] ∨ sign = ['-'])
+    (hlen : 3 ≤ (sign ++ 'P' :: durBody w d h mi s).length) :
+    (idiffStrp (sign ++ 'P' :: durBody w d h mi s) (sign ++ 'P' :: durBody w d h mi s).length).1 =
+      (if sign = ['-'] then -1 else 1) *
+        ((pval w * 7 + pval d) * 86400000 + pval h * 3600000 + pval mi * 60000 + pval s * 1000) := by
+  rw [idiffStrp_dur sign w d h mi s hw hd hh hm hs hsign hlen]
+  unfold durVal
+  split <;> omega
+
+/-- the same with the parts given as numbers below 2^32, printed canonically; no length
+hypothesis is needed (a text shorter than 3 has no part and the value 0) -/
+theorem idiff_spellings_nat (sign : List Char) (w d h mi s : Option Nat)
+    (hw : ∀ v, w = some v → v < 2^32) (hd : ∀ v, d = some v → v < 2^32) (hh : ∀ v, h = some v → v < 2^32)
+    (hm : ∀ v, mi = some v → v < 2^32) (hs : ∀ v, s = some v → v < 2^32)
+    (hsign : sign = [] ∨ sign = ['+'] ∨ sign = ['-']) :
+    let text := sign ++ 'P' :: durBody (w.map tostr) (d.map tostr) (h.map tostr) (mi.map tostr) (s.map tostr)
+    (idiffStrp text text.length).1 =
+      (if sign = ['-'] then -1 else 1) *
+        (((w.getD 0 : Nat) * 7 + (d.getD 0 : Nat) : Int) * 86400000 + (h.getD 0 : Nat) * 3600000
+          + (mi.getD 0 : Nat) * 60000 + (s.getD 0 : Nat) * 1000) := by
+  intro text
+  by_cases hall : w = none ∧ d = none ∧ h = none ∧ mi = none ∧ s = none
+  · obtain ⟨rfl, rfl, rfl, rfl, rfl⟩ := hall
+    rcases hsign with rfl | rfl | rfl <;> decide
+  · have hlen : 3 ≤ text.length := by
+      have t := tpart_length_ge (h.map tostr) (mi.map tostr) (s.map tostr)
+      have l1 := part_map_length w 'W'
+      have l2 := part_map_length d 'D'
+      have l3 := part_map_length h 'H'
+      have l4 := part_map_length mi 'M'
+      have l5 := part_map_length s 'S'
+      simp only [text, durBody, List.length_append, List.length_cons]
+      rcases l1 with ⟨a1, b1⟩ | ⟨a1, b1⟩ <;> rcases l2 with ⟨a2, b2⟩ | ⟨a2, b2⟩ <;>
+        rcases l3 with ⟨a3, b3⟩ | ⟨a3, b3⟩ <;> rcases l4 with ⟨a4, b4⟩ | ⟨a4, b4⟩ <;>
+        rcases l5 with ⟨a5, b5⟩ | ⟨a5, b5⟩ <;>
+        first | omega | exact absurd ⟨a1, a2, a3, a4, a5⟩ hall
+    have := idiff_spellings sign _ _ _ _ _ (POk_map_tostr w hw) (POk_map_tostr d hd) (POk_map_tostr h hh)
+      (POk_map_tostr mi hm) (POk_map_tostr s hs) hsign hlen
+    rw [pval_map_tostr w hw, pval_map_tostr d hd, pval_map_tostr h hh, pval_map_tostr mi hm,
+      pval_map_tostr s hs] at this
+    exact this
+
+-- P1W2DT3H4M5S, with signs, with leading zeros, single parts
+example : idiffStrp ['P','1','W','2','D','T','3','H','4','M','5','S'] 12 = (788645000, 13) := by decide
+example : ((1 * 7 + 2) * 86400000 + 3 * 3600000 + 4 * 60000 + 5 * 1000 : Int) = 788645000 := by decide
+example : (idiffStrp ['-','P','1','W','2','D','T','3','H','4','M','5','S'] 13).1 = -788645000 := by decide
+example : (idiffStrp ['+','P','1','D'] 4).1 = 86400000 := by decide
+example : (idiffStrp ['P','0','0','2','W'] 5).1 = 1209600000 := by decide
+example : (idiffStrp ['P','T','9','0','M'] 5).1 = 5400000 := by decide
+example : durBody (some ['1']) (some ['2']) (some ['3']) (some ['4']) (some ['5'])
+    = ['1','W','2','D','T','3','H','4','M','5','S'] := by decide
+example : POk (some ['0','0','2']) := by
+  intro ds h; cases h; decide
 
 end C18
